@@ -53,7 +53,7 @@ def run(ctx):
     R = common.Result(RULE)
     rng = ctx.rng
     rn = Runner(ctx, R, lib, "C07")
-    R.extra["model_variant"] = {"remove_fixed(F4)": rn.mode[0], "tree_fixed(F15)": rn.mode[1]}
+    R.extra["model_variant"] = {"remove_fixed(F4)": rn.mode[0], "tree_fixed(F15)": rn.mode[1], "import_extends(F5)": rn.mode[2]}
     real = Real(lib, lib.detached())
 
     def case(r, env, base, ops, tags=()):
